@@ -63,6 +63,32 @@ def is_dyadic(q):
     return d & (d - 1) == 0
 
 
+def is_double(q):
+    """is the rational exactly an IEEE double?"""
+    try:
+        return F(float(q)) == q
+    except OverflowError:
+        return False
+
+
+# magnitude families (round 4): a case flagged 'precise' uses the exact criterion "every intermediate value is a
+# double" for the inexact flag instead of the conservative one (dyadic, below 2^40, at most 53 bits) of the random
+# stream.  Set for the duration of one case by `precision`.
+PRECISE = [False]
+
+
+class precision:
+    def __init__(self, on):
+        self.on = bool(on)
+
+    def __enter__(self):
+        self.old = PRECISE[0]
+        PRECISE[0] = self.on
+
+    def __exit__(self, *a):
+        PRECISE[0] = self.old
+
+
 # ---------------------------------------------------------------------------------------------------------------------
 # printers
 
@@ -577,6 +603,177 @@ def typed_scope(scope):
     return tsc, tvc
 
 
+# ---------------------------------------------------------------------------------------------------------------------
+# round 4: input classes of the magnitude findings (used ONLY to name the finding of an already rejected case)
+
+def digits15_lossy(q):
+    """does the double q change when written with 15 significant decimal digits (what sympy's printers do with a
+    Float of default precision)?"""
+    try:
+        x = float(F(q))
+        return float('%.15g' % x) != x
+    except (OverflowError, ValueError):
+        return True
+
+
+def repr_differs(q):
+    """is the shortest decimal representation of the double q (what TimeType.from_float reads, by design) a different
+    number than the double itself?"""
+    try:
+        x = float(F(q))
+        return F(repr(x)) != F(x)
+    except (OverflowError, ValueError):
+        return True
+
+
+I64 = (-2 ** 63, 2 ** 63 - 1)
+
+
+class _NpOverflow(Exception):
+    pass
+
+
+def np_int_overflow(e, points, vc_kinds, array_names=()):
+    """numpy-int-overflow, the class.  points: list of scopes name -> (Fraction, kind) (one per sample point), kind
+    'py' (Python int / TimeType: arbitrary size), 'np' (numpy.int64 scalar or int array: fixed width), 'flt';
+    vc_kinds: base -> (list, kind).  True when the evaluation, as the generated numpy code performs it, has an integer
+    operation on a fixed-width operand whose result leaves int64, or hands a Python int outside int64 to a numpy
+    function (Abs, Min, Max, Piecewise turn Python ints into numpy.int64; floor / ceiling of an ARRAY cast to int64
+    when every entry fits)."""
+    fits = lambda x: x.denominator == 1 and I64[0] <= x <= I64[1]
+    arr = set(array_names)
+    cast = {}          # id(floor/ceil node over an array) -> every sample point fits int64
+
+    def ev(e, sc, probe):
+        k = e[0]
+        if k == 'c':
+            q = F(e[1])
+            return q, ('flt' if e[2] == 'f' or q.denominator != 1 else 'py')
+        if k == 'v':
+            return sc[e[1]]
+        if k == 'nan':
+            raise EvalError('nan')
+        if k == 'u':
+            (x, kx), op = ev(e[2], sc, probe), e[1]
+            if op in ('floor', 'ceil'):
+                r = F(math.floor(x)) if op == 'floor' else F(math.ceil(x))
+                if fv(e[2]) & arr:
+                    if probe:
+                        cast[id(e)] = cast.get(id(e), True) and fits(r)
+                        return r, 'np'
+                    return r, ('np' if cast.get(id(e)) else 'flt')
+                return r, ('np' if kx == 'np' else 'py')
+            if kx == 'flt':
+                return py_eval(['u', op, ['c', str(x), 'r']], {}, {}), 'flt'
+            if op == 'abs':
+                if not fits(x) and not 0 <= x < 2 ** 64:
+                    return abs(x), 'py'       # numpy falls back to the Python object
+                r = abs(x)
+                if not fits(r) and kx == 'np':
+                    raise _NpOverflow()
+                return r, 'np'
+            if op == 'not':
+                return F(int(x == 0)), 'py'
+            r = py_eval(['u', op, ['c', str(x), 'r']], {}, {})
+            if op.startswith('pow:') and int(op[4:]) < 0:
+                return r, 'flt'
+            if kx == 'np' and not fits(r):
+                raise _NpOverflow()
+            return r, kx
+        if k == 'b':
+            (x, kx), (y, ky), op = ev(e[2], sc, probe), ev(e[3], sc, probe), e[1]
+            r = py_eval(['b', op, ['c', str(x), 'r'], ['c', str(y), 'r']], {}, {})
+            if op in CMPS + ['and', 'or']:
+                return r, 'py'
+            if op == 'floordiv':
+                return r, ('np' if (fv(e) & arr) and fits(r) else 'py')
+            if 'flt' in (kx, ky) or op == 'div':
+                return r, 'flt'
+            if op in ('min', 'max'):
+                if not (fits(x) and fits(y)):
+                    raise _NpOverflow()
+                return r, 'np'
+            if 'np' in (kx, ky):
+                if not (fits(x) and fits(y) and fits(r)):
+                    raise _NpOverflow()
+                return r, 'np'
+            return r, 'py'
+        if k == 'ite':
+            c, _ = ev(e[1], sc, probe)
+            (x, kx), (y, ky) = ev(e[2], sc, probe), (ev(e[3], sc, probe) if e[3] != ['nan'] else (F(0), 'flt'))
+            for z, kz in ((x, kx), (y, ky)):
+                if kz != 'flt' and not fits(z):
+                    raise _NpOverflow()
+            return (x if c != 0 else y), 'flt'
+        if k == 'sum':
+            (lo, _), (hi, _) = ev(e[2], sc, probe), ev(e[3], sc, probe)
+            if hi - lo > 64:
+                raise EvalError('big')
+            acc, ka = F(0), 'py'
+            for kk in range(int(lo), int(hi) + 1):
+                x, kx = ev(e[4], {**sc, e[1]: (F(kk), 'py')}, probe)
+                acc += x
+                ka = 'flt' if 'flt' in (ka, kx) else 'np' if 'np' in (ka, kx) else 'py'
+                if ka == 'np' and not fits(acc):
+                    raise _NpOverflow()
+            return acc, ka
+        if k == 'idx':
+            i, _ = ev(e[2], sc, probe)
+            l, kl = vc_kinds[e[1]]
+            return l[int(i)], kl
+        if k == 'ibc':
+            return ev(e[1], sc, probe)
+        raise ValueError(e)
+    try:
+        if arr:
+            for p in points:
+                try:
+                    ev(e, p, True)
+                except _NpOverflow:
+                    pass
+        for p in points:
+            ev(e, p, False)
+        return False
+    except _NpOverflow:
+        return True
+    except Exception:
+        return False
+
+
+def int_div_inexact(e, tsc, tvc, exact=False):
+    """int-div-through-float, the class: the typed evaluation divides two INT-typed values (true division, or `//`
+    which is built as floor(a / b)) and the exact quotient is no double -- Python's int / int rounds it to one"""
+    found = []
+
+    def walk(e, sc):
+        k = e[0]
+        if k == 'b' and e[1] in ('div', 'floordiv') and (fv(e) or fvv(e)):     # (sympy folds closed quotients exactly)
+            try:
+                (x, tx), (y, ty) = typed_eval(e[2], sc, tvc, exact), typed_eval(e[3], sc, tvc, exact)
+                if tx == 'int' and ty == 'int' and y != 0 and not is_double(x / y):
+                    found.append(e)
+            except EvalError:
+                pass
+        if k == 'sum':
+            try:
+                (lo, _), (hi, _) = typed_eval(e[2], sc, tvc, exact), typed_eval(e[3], sc, tvc, exact)
+                for kk in range(int(lo), min(int(hi), int(lo) + 64) + 1):
+                    walk(e[4], {**sc, e[1]: (F(kk), 'int')})
+            except EvalError:
+                pass
+            walk(e[2], sc)
+            walk(e[3], sc)
+            return
+        for x in e[1:]:
+            if isinstance(x, list):
+                walk(x, sc)
+    try:
+        walk(e, tsc)
+    except Exception:
+        return False
+    return bool(found)
+
+
 def eager_fails(e, sc, vc, dead=False):
     """does the formula fail when EVERY Piecewise branch is evaluated and combined with its context (numpy.select
     evaluates all branches; sympy moves surrounding operations into the branches)?  Set-valued evaluation.
@@ -662,6 +859,9 @@ def analyse(e, sc, vc):
         # float pow is not correctly rounded: (-4.53125)**4 is off by one ulp although the result is representable
         if any(s[0] == 'u' and s[1].startswith('pow:') and abs(int(s[1][4:])) > 2 for s in subterms(sub)):
             return True
+        if PRECISE[0]:
+            return any(s[0] == 'u' and s[1] in FNS for s in subterms(sub)) or \
+                any(not is_double(r) for s in subterms(sub) for r in vals.get(id(s), []))
         return any(s[0] == 'u' and s[1] in FNS for s in subterms(sub)) or \
             any(not is_dyadic(r) or abs(r) > 2 ** 40 or r.numerator.bit_length() > 53
                 for s in subterms(sub) for r in vals.get(id(s), []))
